@@ -52,6 +52,7 @@ NOT_REACHED = [
     'control characters other than tab/newline/CR; `$` forms other than $NAME, ${NAME}, $(cmd), '
     'lone `$` (documented to be expanded by the shell, ru.sh_quote)']
 QUICK_JOBS = 1
+SHRINK_STR = True      # token texts / names are shrunk too (normalise() repairs the rest)
 BUDGET     = {'quick': 100, 'thorough': 1500}
 
 # ------------------------------------------------------------------------------
@@ -316,6 +317,16 @@ def normalise(case):
     """repair what the minimiser may have broken; None = not a case"""
     try:
         c = dict(case)
+        for k, v in (('ranks', 1), ('layout', 0), ('sandbox', 'default'), ('use_mpi', None),
+                     ('name', None), ('threading', ''), ('gpu_type', ''), ('sync', False),
+                     ('stdout', None), ('stderr', None)):
+            c.setdefault(k, v)
+        for k in ('sandbox', 'threading', 'gpu_type'):
+            c[k] = str(c[k] or '')
+        if c['threading'] not in ('', 'OpenMP'):
+            c['threading'] = ''
+        if c['name'] is not None:
+            c['name'] = re.sub(r'[^A-Za-z0-9._ -]', '', str(c['name'])) or None
         c['ranks'] = min(3, max(1, int(c['ranks'])))
         ex = [int(x) % 256 for x in c.get('exit', [])]
         c['exit'] = (ex + [0, 0, 0])[:3]
@@ -381,16 +392,19 @@ def run_case(case):
     case = normalise(case)
     if case is None:
         return res
+    _run_once(case, res)
+    _bucket(case, res)
+    return res
 
-    eng   = H.engine(case.get('layout', 0))
-    cdir  = eng.new_case_dir()
-    obs   = None
+
+def _run_once(case, res):
+    eng  = H.engine(case.get('layout', 0))
+    cdir = eng.new_case_dir()
+    obs  = None
     try:
         obs = _run(case, eng, cdir, res)
     finally:
         eng.cleanup(cdir, obs)
-    _bucket(case, res)
-    return res
 
 
 # clauses which do not depend on the task-environment section of the exec script
@@ -398,11 +412,13 @@ INDEPENDENT = ('rp_env:', 'script_unparsable:launch', 'launcher_choice', 'handle
 
 
 def _bucket(case, res):
-    """root-cause bucketing: an environment value with an unescaped `"` (or a `\\`
-    in front of a character special inside double quotes) garbles every line of
-    the exec script up to the next `"` - whatever fails behind it in the same
-    case (lost variables, arguments, traces, exit code, unparsable script) is
-    one finding, named after the class of the offending value."""
+    """root-cause bucketing by a differential run: an environment value with an
+    unescaped `"` (or a `\\` in front of a character that is special inside double
+    quotes) garbles every line of the exec script up to the next `"`.  If a case
+    with such a value fails, it is run again with `"` and `\\` taken out of the
+    environment values: failures which are gone then (lost variables, arguments,
+    traces, exit codes, unparsable script) are ONE finding named after the class
+    of the offending value; failures which stay keep their own signature."""
     if not res.problems:
         return
     values = [build(v) for _, v in case['env']]
@@ -412,10 +428,20 @@ def _bucket(case, res):
         taint = 'backslash'
     else:
         return
-    dep = [(sig, m) for sig, m in res.problems if not sig.startswith(INDEPENDENT)]
-    if dep:
-        keep = [(sig, m) for sig, m in res.problems if sig.startswith(INDEPENDENT)]
-        res.problems = keep + [('env_value:%s' % taint, '[%s] %s' % (dep[0][0], dep[0][1]))]
+    dep  = [(sig, m) for sig, m in res.problems if not sig.startswith(INDEPENDENT)]
+    if not dep:
+        return
+    clean = dict(case)
+    clean['env'] = [[k, [[t[0], str(t[1]).replace('"', '').replace('\\', '')] if t[0] == 'l' else t
+                         for t in v if isinstance(t, list) and len(t) == 2]]
+                    for k, v in case['env']]
+    res2 = CaseResult()
+    _run_once(clean, res2)
+    stay   = set(sig for sig, _ in res2.problems)
+    caused = [(sig, m) for sig, m in dep if sig not in stay]
+    if caused:
+        res.problems = [(sig, m) for sig, m in res.problems if (sig, m) not in caused] + \
+                       [('env_value:%s' % taint, '[%s] %s' % caused[0])]
 
 
 def _slots(case, n_ranks):
